@@ -357,7 +357,8 @@ def cases_v_crosscheck(prop, cases, model_obs, workdir, shards=4):
         with open(path, 'w') as f:
             f.write('From SE Require Import Base.Prelude Dispatch.\n')
             for i, (c, o) in enumerate(part):
-                f.write('Goal dispatch (%s) = (%s). Proof. vm_compute. reflexivity. Qed.\n' % (sx_coq(sx_parse(c)), sx_coq(sx_parse(o))))
+                # compare the PRINTED observation (Prelude.show), so that numerals printed as symbols compare as text
+                f.write('Goal show (dispatch (%s)) = "%s"%%string. Proof. vm_compute. reflexivity. Qed.\n' % (sx_coq(sx_parse(c)), sx_show(sx_parse(o)).replace('"', '""')))
         procs.append((subprocess.Popen(['coqc', '-noglob', '-Q', os.path.join(COQ, 'theories'), 'SE', '-w', 'none', path],
                                        cwd=workdir, stdout=subprocess.PIPE, stderr=subprocess.PIPE), path, part))
     n = 0
